@@ -221,6 +221,7 @@ class BasicSender(Unit):
     maxruns = {"quick": 2000, "thorough": 20000}
     nrandom = {"quick": 300, "thorough": 3000}
     FIRST = {"sync": "s", "inl": "i", "safe": "f", "unsafe": "u", "none": "n"}
+    BREQ = {"nobs": "n", "valstop": "v", "stopval": "s"}
     def programs(self, tier):
         progs = []
         for f in ("sync", "inl", "safe", "unsafe", "none"):
@@ -233,13 +234,55 @@ class BasicSender(Unit):
                     if tier == "quick" and st == "prestop" and s2 == "safe":
                         continue
                     progs.append((f, s2, st))
+        # re-entrant stop requests: the body event that calls set_value also calls request_stop() on
+        # the operation's own source (valstop: after the set_value, stopval: before it); restop: the
+        # stop event requests stop again.  `nostop`: the body's request is the only one; `stop`: it
+        # races with thread 3's.
+        for f in ("sync", "inl", "safe", "unsafe", "none"):
+            for bq in ("valstop", "stopval"):
+                for s2 in ("nosecond", "safe"):
+                    for st in ("nostop", "stop", "prestop"):
+                        for rs in ("norestop", "restop"):
+                            if (f, s2) == ("unsafe", "safe"):
+                                continue
+                            if f == "none" and s2 == "nosecond":
+                                continue   # no event calls set_value: same as nobs
+                            if st == "prestop" and (tier == "quick" or rs == "restop" or s2 == "safe" or bq == "stopval" or f not in ("sync", "safe")):
+                                continue   # stopped early: no body event at all
+                            if rs == "restop" and bq == "valstop":
+                                continue   # thorough: the re-requesting stop event with stopval and with nobs (below)
+                            if s2 == "safe" and f in ("sync", "inl") and (bq, st) not in (("valstop", "stop"), ("stopval", "nostop")):
+                                continue   # the second callback finds the cell expired
+                            if rs == "restop" and ((s2 == "safe" and f != "none") or (st == "stop" and (f, s2) != ("safe", "nosecond"))):
+                                continue
+                            if tier == "quick":
+                                # the second callback only where it is the one that completes (none) or
+                                # races with the first safe callback and thread 3 (safe + stop); the
+                                # re-requesting stop event with the requests that dispatch it
+                                # (stopval + nostop), otherwise not
+                                if s2 == "safe" and not ((f == "none" and (bq, st) in (("valstop", "stop"), ("stopval", "nostop")))
+                                                         or (f == "safe" and st == "stop")):
+                                    continue
+                                if (rs == "restop") != (bq == "stopval" and st == "nostop" and s2 == "nosecond"):
+                                    continue
+                                if f in ("sync", "inl") and (bq, st) == ("stopval", "stop"):
+                                    continue
+                            progs.append((f, s2, st, bq, rs))
+        if tier != "quick":
+            for f in ("safe", "unsafe", "none"):
+                progs.append((f, "nosecond", "stop", "nobs", "restop"))
         return progs
     def model_args(self, prog):
-        return "%s %d" % (self.FIRST[prog[0]], prog[1] == "safe")
+        bq = prog[3] if len(prog) > 3 else "nobs"
+        rs = prog[4] if len(prog) > 4 else "norestop"
+        return "%s %d %s %d" % (self.FIRST[prog[0]], prog[1] == "safe", self.BREQ[bq], rs == "restop")
     TOUCH = re.compile(r"^(mutex |cb |body\.|ext (REG|DEREG)|root )")
     def project(self, prog, events):
         prestop = prog[2] == "prestop"
         out = []; reg_done = False; set_seen = False; destroyed = False; trunc = False
+        pending = set()       # threads whose body announced a request_stop() not yet linearised
+        t3_done = False       # thread 3's request_stop has been linearised
+        calls = []            # the body's set_value / set_done calls in order
         parsed = []
         for e in events:
             m = re.match(r"t(\d+) (\S+) ?(.*)$", e)
@@ -249,11 +292,28 @@ class BasicSender(Unit):
                 destroyed = True; out.append((t, "op_destroyed")); continue
             if destroyed and t != 4 and (name == "b.mutex" or name.startswith("b.cb") or name.startswith("!body.")):
                 trunc = True; break     # the storage is gone; reported by the direct monitor
+            if name == "!body.reqstop":
+                pending.add(t); continue
+            if name in ("!body.set_value", "!body.set_done"):
+                calls.append("value" if name.endswith("value") else "done"); continue
             if name == "ext.state":
                 mc = re.match(r"C\.(\S+) (\d+)->(\d+) (ok|fail)", rest)
                 ml = re.match(r"L\.\S+ (\d+)", rest)
+                sees_stop = (ml and int(ml.group(1)) & 1) or (mc and mc.group(4) == "fail" and int(mc.group(2)) & 1)
                 if mc and mc.group(4) == "ok" and mc.group(2) == "0" and mc.group(3) == "3":
-                    set_seen = True; out.append((3, "ext SET"))
+                    # the winning request_stop: by a body event on its own thread, by thread 3, or
+                    # (prestop) by the harness on thread 0 before the operation exists = model thread 3
+                    set_seen = True
+                    if t in pending:
+                        pending.discard(t); out.append((t, "ext SET"))
+                    else:
+                        t3_done = True; out.append((3, "ext SET"))
+                elif t in pending:
+                    if sees_stop:      # stop already requested: this request_stop() is a no-op
+                        pending.discard(t); out.append((t, "ext SETNO"))
+                elif t == 3 and not t3_done:
+                    if sees_stop:
+                        t3_done = True; out.append((3, "ext SETNO"))
                 elif t == 0 and not reg_done and not (prestop and not set_seen):
                     if mc and mc.group(4) == "ok" and mc.group(2) == "0" and mc.group(3) == "2":
                         reg_done = True; out.append((0, "ext REG 0"))
@@ -280,6 +340,9 @@ class BasicSender(Unit):
         if not hasattr(self, "_trunc"):
             self._trunc = {}
         self._trunc[(tuple(prog), tuple(out))] = trunc
+        if not hasattr(self, "_calls"):
+            self._calls = {}
+        self._calls.setdefault((tuple(prog), tuple(out)), set()).add(",".join(calls))
         return out
     def post_check(self, prog, summary, proj):
         late = 0; seen_root = False
@@ -293,8 +356,16 @@ class BasicSender(Unit):
         m = re.search(r"late=(\d+)", summary)
         if not m or int(m.group(1)) != late:
             return "ghost accounting differs: implementation trace has %d accesses after the completion, model says %s" % (late, summary)
+        m = re.search(r"badstop=(\d+)", summary)
+        if not m or int(m.group(1)) != 0:
+            return "model dispatched the stop event to an operation that was not started or had finished: " + summary
         if self._trunc.get((tuple(prog), tuple(proj))):
             return None
+        # the body's set_value / set_done calls (ghost of the model) against the logged actions
+        m = re.search(r"calls=(\S*) ", summary)
+        want = self._calls.get((tuple(prog), tuple(proj)), set())
+        if not m or want != {m.group(1)}:
+            return "the body's set_value/set_done calls differ: implementation %s, model %s" % (sorted(want), summary)
         if not re.search(r"completions=(value|done) ", summary):
             return "model did not complete exactly once: " + summary
         m = re.search(r"enabled=(\S*)", summary)
